@@ -9,7 +9,7 @@ CONSTANTS
   Canonical = FALSE
   AliasInit = FALSE
   EmitOn = FALSE
-CONSTRAINT Smaller
+CONSTRAINT Tiny
 VIEW absvars
 INVARIANTS TypeOK EqualityLaws AliasCoherent
 PROPERTIES Propagation NeverEvaluated DivTargetKept SelectLaw ValueOrLaw OperandsKept OwnersKept
